@@ -11,6 +11,7 @@ import tempfile
 import time
 
 from .. import core, monitors, cli
+from ..gen import variants
 
 ID = 'C14'
 LEVEL = 'exploration'
@@ -97,7 +98,7 @@ def gen_tree(rng, root):
                 target = os.path.join(d, name)
                 written = name
             else:
-                base = rng.choice(['defs', 'util', 'data', 'part'])
+                base = rng.choice(['defs', 'util', 'data', 'part', 'defs', 'util', 'rev=2_', 'a+b', 'x,y', 'cfg@1-', 'm\u00fcll', '0x10', 'include', 'string'])
                 name = '%s%d.asm' % (base, rng.randrange(3))
                 if where == 'same':
                     target = os.path.join(here, name)
@@ -114,8 +115,9 @@ def gen_tree(rng, root):
                     written = os.path.join(os.path.dirname(written), name) if os.path.dirname(written) else name
             target = os.path.normpath(target)
             used_names.add(os.path.basename(target))
-            style = rng.randrange(4)
-            inc_line = {0: 'include %s', 1: 'include "%s"', 2: "include '%s'", 3: 'include %s  # pull it in (here)'}[style] % written
+            style = rng.randrange(5)
+            inc_line = {0: 'include %s', 1: 'include "%s"', 2: "include '%s'", 3: 'include %s  # pull it in (here)',
+                        4: 'include %s' + rng.choice(['  ', ' ', '\t']) + rng.choice(variants.COMMENTS).replace('%', '%%')}[style] % written
             lines.append(inc_line)
             sub = make(target, depth + 1)
             flat += sub
@@ -218,8 +220,14 @@ def run_tree(asm, acc, seed, idx, ncli):
                 outp = os.path.join(root, 'out-%d.bin' % k)
                 labp = os.path.join(root, 'lab-%d.txt' % k)
                 args = [t.main if k % 2 == 0 or cw != 'rootdir' else 'main.asm', '-o', outp, '-l', labp] + (['-c'] if compress else [])
+                if (idx + k) % 3 == 0:
+                    args.append('--include-definitions')
+                    acc['ctr']['cli_runs_with_bundled_definitions_on_the_path'] += 1
                 for d in t.incdirs:
                     args += ['-i', d if k % 2 == 0 else os.path.relpath(d, cwds[cw])]
+                if (idx + k) % 3 == 1:
+                    args.append('--include-definitions')
+                    acc['ctr']['cli_runs_with_bundled_definitions_on_the_path'] += 1
                 r = cli.run_cli(args, cwds[cw])
                 acc['ctr']['cli_runs'] += 1
                 acc['ntkeys'].add(core.ckey(seed, idx, 'cli', cw, compress))
